@@ -127,6 +127,8 @@ pub struct SeqProp {
     pub filter_oracle: Option<FilterSpec>,
     /// C11: number of reopen cycles performed by the oracle before the superseding suffix (0 = off)
     pub supersede_reopens: usize,
+    /// keep what canonical-state deduplication needs (sealed memtable shadow, journal records)
+    pub dedup: bool,
 }
 
 /// A deterministic compaction filter decided from the key, and the keyspaces it is assigned to.
@@ -205,6 +207,7 @@ impl SeqProp {
             c12_ops: false,
             filter_oracle: None,
             supersede_reopens: 0,
+            dedup: false,
         }
     }
 }
@@ -224,12 +227,13 @@ impl Property for SeqProp {
             w.apply(op).map_err(|v| Violation::new("harness", format!("prefix op {op} failed: {}", v.detail)))?;
         }
         // the prefix must itself satisfy the oracle; otherwise it is reported by the pass that explores it
-        w.track_journals = self.journal_oracle || self.supersede_reopens > 0;
+        w.track_journals = self.journal_oracle || self.supersede_reopens > 0 || self.dedup;
         if w.track_journals {
             // journal bookkeeping must cover the prefix too: re-run it with tracking on
             drop(w);
             w = World::new_with_filter(fresh_dir_like(), self.cfg.clone(), self.filter.clone())?;
             w.track_journals = true;
+            w.track_shadow = self.dedup;
             for op in &self.prefix {
                 w.apply(op).map_err(|v| Violation::new("harness", format!("prefix op {op} failed: {}", v.detail)))?;
             }
@@ -435,6 +439,20 @@ impl Property for SeqProp {
 
     fn absorb(&self, w: &World, s: &mut Witness) {
         s.add(&w.wit);
+    }
+
+    fn canon(&self, w: &World) -> Option<u64> {
+        if !self.dedup {
+            return None;
+        }
+        use std::hash::{Hash, Hasher};
+        let c = w.canon_state()?;
+        let mut h = std::collections::hash_map::DefaultHasher::new();
+        c.hash(&mut h);
+        // counters the set of enabled continuations (and C04's "judged after a reopen") depend on
+        w.wit.reopened.hash(&mut h);
+        w.steps.min(2).hash(&mut h);
+        Some(h.finish())
     }
 
     fn kind(&self, op: &Op) -> String {
